@@ -67,8 +67,9 @@ func allChecksRaw() []*Check {
 	return []*Check{
 		{
 			ID:    "C01",
-			Files: []string{"gtree/common.go", "gtree/c01.go"},
+			Files: []string{"gtree/common.go", "gtree/c01.go", "gtree/wide.go"},
 			Quick: []Job{
+				{Name: "C01.wide", Pkg: "gtree", Entry: "VerifWide", N: 0, RealParse: true, Expect: []string{"Wide.add.same", "Wide.md.text/iter", "Wide.md.text/noiter", "Wide.prog.text", "Wide.prog.walk", "Wide.end"}},
 				gj("C01.tree.n6", "VerifC01", 6, "C01.nil", "C01.out", "C01.end"),
 				gj("C01.blank.n3", "VerifC01Blank", 3, "C01.blank.nil", "C01.blank.out", "C01.blank.end"),
 				gj("C01.bytes.n4", "VerifC01Bytes", 4, "C01.bytes.nil", "C01.bytes.out", "C01.bytes.end"),
@@ -100,8 +101,9 @@ func allChecksRaw() []*Check {
 		},
 		{
 			ID:    "C03",
-			Files: files(filesProg, filesVFS, []string{"gtree/c03.go"}),
+			Files: files(filesProg, filesVFS, []string{"gtree/c03.go", "gtree/wide.go"}),
 			Quick: []Job{
+				{Name: "C03.wide", Pkg: "gtree", Entry: "VerifWide", N: 0, RealParse: true, Expect: []string{"Wide.add.same", "Wide.md.text/iter", "Wide.md.text/noiter", "Wide.prog.text", "Wide.prog.walk", "Wide.end"}},
 				gjf("C03.pairs.n5", "VerifC03", 5, "C03.add", "C03.text", "C03.text.ref", "C03.enc", "C03.walk", "C03.iter", "C03.alias.output", "C03.alias.walk", "C03.alias.iter"),
 				gjf("C03.pairs2.n4", "VerifC03", 14, "C03.add", "C03.fail.samewrites", "C03.fail.err", "C03.fail.out", "C03.dryrun.nil", "C03.dryrun"),
 				gjf("C03.reject.n3", "VerifC03Reject", 3, "C03.reject.err", "C03.reject.nowrite", "C03.reject.nocallback", "C03.reject.nofs"),
@@ -133,12 +135,14 @@ func allChecksRaw() []*Check {
 		},
 		{
 			ID:    "C05",
-			Files: files(filesProg, []string{"gtree/c05.go"}),
+			Files: files(filesProg, []string{"gtree/c05.go", "gtree/wide.go"}),
 			Quick: []Job{
+				{Name: "C05.deep", Pkg: "gtree", Entry: "VerifDeep", N: 0, RealParse: true, Expect: []string{"Deep.text", "Deep.walk.md", "Deep.walk.iter", "Deep.walk.root", "Deep.end"}},
 				gjf("C05.walk.n5", "VerifC05", 5, "C05.name", "C05.branch", "C05.row", "C05.level", "C05.path", "C05.haschild", "C05.stop.err", "C05.stop.count", "C05.stop.nomore", "C05.all", "C05.nil"),
 				gjf("C05.iter.n5", "VerifC05Iter", 5, "C05.iter.row", "C05.iter.path", "C05.iter.level", "C05.iter.nomore", "C05.iter.stop.count", "C05.iter.stop.err", "C05.iter.all"),
 			},
 			Thorough: []Job{
+				{Name: "C05.deep", Pkg: "gtree", Entry: "VerifDeep", N: 1, RealParse: true, Expect: []string{"Deep.text", "Deep.walk.md", "Deep.walk.iter", "Deep.walk.root", "Deep.end"}},
 				gjf("C05.walk.n7", "VerifC05", 7, "C05.name", "C05.branch", "C05.row", "C05.level", "C05.path", "C05.haschild", "C05.stop.err", "C05.stop.count", "C05.stop.nomore", "C05.all", "C05.nil"),
 				gjf("C05.iter.n7", "VerifC05Iter", 7, "C05.iter.row", "C05.iter.path", "C05.iter.level", "C05.iter.nomore", "C05.iter.stop.count", "C05.iter.stop.err", "C05.iter.all"),
 			},
@@ -147,8 +151,9 @@ func allChecksRaw() []*Check {
 		},
 		{
 			ID:    "C13",
-			Files: files(filesProg, filesVFS, []string{"gtree/c13.go", "gtree/c13c.go", "gtree/c13c_native.go"}),
+			Files: files(filesProg, filesVFS, []string{"gtree/c13.go", "gtree/c13c.go", "gtree/c13c_native.go", "gtree/wide.go"}),
 			Quick: []Job{
+				{Name: "C13.wide", Pkg: "gtree", Entry: "VerifWide", N: 0, RealParse: true, Expect: []string{"Wide.add.same", "Wide.md.text/iter", "Wide.md.text/noiter", "Wide.prog.text", "Wide.prog.walk", "Wide.end"}},
 				gjf("C13.hist.n4", "VerifC13", 4, "C13.add", "C13.fn", "C13.idem", "C13.md", "C13.md.fails", "C13.nil", "C13.end"),
 				gjf("C13.hist.n3.dryrun", "VerifC13", 103, "C13.add", "C13.fresh", "C13.idem", "C13.end"),
 				gjf("C13.hist.n2.emptynames", "VerifC13", 12, "C13.add", "C13.fn", "C13.idem", "C13.end"),
@@ -290,6 +295,7 @@ func allChecksRaw() []*Check {
 				gjf("C08.n3x1", "VerifC08", 13, "C08.readonly", "C08.iff/same", "C08.iff/differs", "C08.type", "C08.sound.missing", "C08.exact.missing", "C08.sound.extra", "C08.exact.extra", "C08.text"),
 				gjf("C08.bytes.n3x1", "VerifC08", 213, "C08.readonly", "C08.iff/same", "C08.iff/differs", "C08.sound.missing", "C08.exact.missing", "C08.text"),
 				gjf("C08.mkdir.n3", "VerifC08Mkdir", 3, "C08.mkdir.made", "C08.mkdir.verifies", "C08.mkdir.readonly"),
+				gjf("C08.env.n3", "VerifC08Env", 3, "C08.env.reported/notarget", "C08.env.reported/targetisfile", "C08.env.readonly", "C08.env.end"),
 			},
 			Thorough: []Job{
 				gjf("C08.n3x2", "VerifC08", 23, "C08.readonly", "C08.iff/same", "C08.iff/differs", "C08.type", "C08.sound.missing", "C08.exact.missing", "C08.sound.extra", "C08.exact.extra", "C08.text"),
@@ -353,6 +359,7 @@ func allChecksRaw() []*Check {
 				// blank / malformed rows and # roots): the happens-before detector rides on the same harness
 				gjf("C11.race.ops.n2", "VerifC10", 2, "C10.noleak", "C10.end"),
 				{Name: "C11.many", Pkg: "gtree", Entry: "VerifC11Many", N: 0, FSModel: true, RealParse: true, Expect: []string{"C11.many.returns", "C11.many.reported", "C11.noleak/many"}},
+				{Name: "C11.manygood", Pkg: "gtree", Entry: "VerifC11ManyGood", N: 0, FSModel: true, RealParse: true, Expect: []string{"C11.manygood.returns", "C11.manygood.nil", "C11.noleak/manygood"}},
 				{Name: "C11.long.n2.ryield", Pkg: "gtree", Entry: "VerifC11Long", N: 2, FSModel: true, Sched: "fifo-ryield", Expect: []string{"C11.long.returns", "C11.long.ctxerr.only", "C11.noleak/long", "C11.stops/reader"}},
 				gjf("C11.fail.n3", "VerifC11Fail", 3, "C11.returns/parse", "C11.returns/validate", "C11.returns/write", "C11.returns/callback", "C11.returns/fs", "C11.returns/reader", "C11.reported/parse", "C11.noleak/parse", "C11.noleak/write", "C11.noleak/fs"),
 				{Name: "C11.fail.n3.fifo-lastsel", Pkg: "gtree", Entry: "VerifC11Fail", N: 3, FSModel: true, Sched: "fifo-lastsel", Expect: []string{"C11.returns/parse", "C11.returns/callback", "C11.reported/callback", "C11.noleak/parse"}},
